@@ -3,8 +3,9 @@ import MuscleModel.Reflector.TravProofsRoute
 /-!
 # Lemmas for property C05, part 5: skip-callback traversal vs continue-callback traversal
 
-Below a session node (depth ≥ 2) the skip traversal records exactly the first visit of the continue traversal;
-at the host and root level (no terminal entries when every pattern has ≥ 3 clauses) both process the same children.
+For a session node and below (children at depth ≥ 2) the skip traversal records exactly the first visit of the
+continue traversal; at the root level (no terminal entries when every pattern has ≥ 2 clauses) both process the same
+children.
 -/
 
 namespace Muscle.Reflector
@@ -13,54 +14,75 @@ open Muscle
 def ctxS (pm : PM) (uf : Bool) (rd : Nat) : TCtx := { pm := pm, useFilters := uf, rootDepth := rd, cb := cbSkip }
 def ctxC (pm : PM) (uf : Bool) (rd : Nat) : TCtx := { pm := pm, useFilters := uf, rootDepth := rd, cb := cbContinue }
 
-/-- under the continue-callback the entry loop only appends to the visit list -/
+/-- under the continue-callback the entry loop only appends to the visit list: the child's path or what the
+    recursive call records -/
 theorem stepG_append (ctx : TCtx) (rec : Rec) (child : Node) (cn : Visit) (depth : Nat) (hit : Bool) (e : Entry)
     (hcb : ctx.cb = cbContinue) (st : CState) :
-    ∃ X, (stepG ctx rec child cn depth hit e st).visits = st.visits ++ X := by
+    ∃ X, (stepG ctx rec child cn depth hit e st).visits = st.visits ++ X ∧
+      ∀ v ∈ X, v = cn ∨ v ∈ (rec child cn (depth+1)).1 := by
   unfold stepG
   simp only [hcb, cbContinue, if_true]
   split
-  · exact ⟨[], by simp⟩
+  · exact ⟨[], by simp, by simp⟩
   · split
     · split
-      · exact ⟨[], by simp⟩
+      · exact ⟨[], by simp, by simp⟩
       · split
         · split
-          · exact ⟨[cn], rfl⟩
-          · exact ⟨[cn], rfl⟩
-        · exact ⟨[], by simp⟩
+          · exact ⟨[cn], rfl, by simp⟩
+          · exact ⟨[cn], rfl, by simp⟩
+        · exact ⟨[], by simp, by simp⟩
     · split
-      · exact ⟨[], by simp⟩
+      · exact ⟨[], by simp, by simp⟩
       · split
-        · exact ⟨_, rfl⟩
-        · exact ⟨_, rfl⟩
+        · exact ⟨_, rfl, fun v hv => Or.inr hv⟩
+        · exact ⟨_, rfl, fun v hv => Or.inr hv⟩
 
 theorem checkEntries_append (ctx : TCtx) (rec : Rec) (child : Node) (cn : Visit) (depth : Nat) (known : Option Nat)
     (hcb : ctx.cb = cbContinue) :
     ∀ (es : List Entry) (idx : Nat) (st : CState),
-      ∃ X, (checkEntries ctx rec child cn depth known es idx st).visits = st.visits ++ X := by
+      ∃ X, (checkEntries ctx rec child cn depth known es idx st).visits = st.visits ++ X ∧
+        ∀ v ∈ X, v = cn ∨ v ∈ (rec child cn (depth+1)).1 := by
   intro es
   induction es with
-  | nil => intro idx st; exact ⟨[], by simp [checkEntries_nil]⟩
+  | nil => intro idx st; exact ⟨[], by simp [checkEntries_nil], by simp⟩
   | cons e es ih =>
     intro idx st
     rw [checkEntries_cons]
     split
-    · exact ⟨[], by simp⟩
-    · obtain ⟨X, hX⟩ := stepG_append ctx rec child cn depth
+    · exact ⟨[], by simp, by simp⟩
+    · obtain ⟨X, hX, hX2⟩ := stepG_append ctx rec child cn depth
         (decide (known = some idx) || hitB (depth - ctx.rootDepth) child.name e) e hcb st
-      obtain ⟨Y, hY⟩ := ih (idx + 1) (stepG ctx rec child cn depth
+      obtain ⟨Y, hY, hY2⟩ := ih (idx + 1) (stepG ctx rec child cn depth
         (decide (known = some idx) || hitB (depth - ctx.rootDepth) child.name e) e st)
-      exact ⟨X ++ Y, by rw [hY, hX, List.append_assoc]⟩
+      refine ⟨X ++ Y, by rw [hY, hX, List.append_assoc], ?_⟩
+      intro v hv
+      rcases List.mem_append.1 hv with h | h
+      · exact hX2 v h
+      · exact hY2 v h
+
+/-- under the continue-callback, with or without a known-matching entry, one child contributes only its own
+    path and what the recursive call records -/
+theorem checkChild_mem_sub (ctx : TCtx) (rec : Rec) (k : Node) (names : Visit) (depth : Nat) (known : Option Nat)
+    (hcb : ctx.cb = cbContinue) :
+    ∀ v ∈ (checkChild ctx rec k names depth known).1,
+      v = names ++ [k.name] ∨ v ∈ (rec k (names ++ [k.name]) (depth+1)).1 := by
+  obtain ⟨X, hX, hX2⟩ := checkEntries_append ctx rec k (names ++ [k.name]) depth known hcb
+    (activeEntries ctx.pm (depth - ctx.rootDepth)) 0 {}
+  intro v hv
+  have hv' : v ∈ (checkEntries ctx rec k (names ++ [k.name]) depth known
+      (activeEntries ctx.pm (depth - ctx.rootDepth)) 0 {}).visits := hv
+  rw [hX] at hv'
+  exact hX2 v (by simpa using hv')
 
 /-- coupling of the two loop states (skip callback / continue callback) at depth ≥ 2 -/
 def Cpl (stS stC : CState) : Prop :=
   (stS.visits = [] ∧ stC.visits = [] ∧ stS.abort = none ∧ stC.abort = none ∧
      stS.matched = stC.matched ∧ stS.recursed = stC.recursed ∧ stS.done = stC.done) ∨
-  (∃ v, stS.visits = [v] ∧ stS.abort = some 1 ∧ stC.visits.take 1 = [v])
+  (∃ v, stS.visits = [v] ∧ (stS.done || stS.abort.isSome) = true ∧ stC.visits.take 1 = [v])
 
 theorem stepG_cpl (pm : PM) (uf : Bool) (rd : Nat) (recS recC : Rec) (child : Node) (cn : Visit) (depth : Nat)
-    (hit : Bool) (e : Entry) (hd : 2 ≤ depth)
+    (hit : Bool) (e : Entry) (hd : 1 ≤ depth)
     (hrS : Deep cn (depth+1) (recS child cn (depth+1)))
     (hrC : (recC child cn (depth+1)).2 = ((depth+1 : Nat) : Int))
     (hr : (recS child cn (depth+1)).1 = (recC child cn (depth+1)).1.take 1)
@@ -69,35 +91,60 @@ theorem stepG_cpl (pm : PM) (uf : Bool) (rd : Nat) (recS recC : Rec) (child : No
          stS.matched = stC.matched ∧ stS.recursed = stC.recursed ∧ stS.done = stC.done) :
     Cpl (stepG (ctxS pm uf rd) recS child cn depth hit e stS) (stepG (ctxC pm uf rd) recC child cn depth hit e stC) := by
   obtain ⟨hvS, hvC, haS, haC, hm, hrr, hdn⟩ := h
-  have h1 : ((1 : Int) < (depth : Int) + 1 - 1) := by omega
   have h2 : ¬ (((depth + 1 : Nat) : Int) < (depth : Int) + 1 - 1) := by omega
-  unfold stepG
-  simp only [ctxS, ctxC, cbSkip, cbContinue, h1, h2, if_true, if_false, hrC, hm, hrr]
-  split
-  · exact Or.inl ⟨hvS, hvC, haS, haC, hm, hrr, hdn⟩
-  · split
+  have h3 : decide (((depth + 1 : Nat) : Int) < (depth : Int) + 1) = false := by
+    simp only [decide_eq_false_iff_not]; omega
+  have hc0 : (recS child cn (depth+1)) = ([], ((depth+1 : Nat) : Int)) → (recC child cn (depth+1)).1 = [] := by
+    intro hs
+    rw [hs] at hr
+    cases hx : (recC child cn (depth+1)).1 with
+    | nil => rfl
+    | cons a b => rw [hx] at hr; simp at hr
+  by_cases hd2 : 2 ≤ depth
+  · have h1 : ((1 : Int) < (depth : Int) + 1 - 1) := by omega
+    unfold stepG
+    simp only [ctxS, ctxC, cbSkip, cbContinue, h1, h2, h3, Bool.or_false, if_true, if_false, hrC, hm, hrr]
+    split
+    · exact Or.inl ⟨hvS, hvC, haS, haC, hm, hrr, hdn⟩
     · split
-      · exact Or.inl ⟨hvS, hvC, haS, haC, hm, hrr, hdn⟩
       · split
-        · exact Or.inr ⟨cn, by simp [hvS], rfl, by simp [hvC]⟩
         · exact Or.inl ⟨hvS, hvC, haS, haC, hm, hrr, hdn⟩
+        · split
+          · exact Or.inr ⟨cn, by simp [hvS], by simp, by simp [hvC]⟩
+          · exact Or.inl ⟨hvS, hvC, haS, haC, hm, hrr, hdn⟩
+      · split
+        · exact Or.inl ⟨hvS, hvC, haS, haC, hm, hrr, hdn⟩
+        · rcases hrS with hs | ⟨v, hs, _, _⟩
+          · have hc := hc0 hs
+            rw [hs]
+            simp only [h2, h3, Bool.or_false, if_false, hc]
+            exact Or.inl ⟨by simp [hvS], by simp [hvC], haS, haC, rfl, rfl, rfl⟩
+          · rw [hs] at hr
+            rw [hs]
+            simp only [h1, if_true]
+            exact Or.inr ⟨v, by simp [hvS], by simp, by simp [hvC, ← hr]⟩
+  · obtain rfl : depth = 1 := by omega
+    unfold stepG
+    simp only [ctxS, ctxC, cbSkip, cbContinue, h2, h3, Bool.or_false, if_false, hrC, hm, hrr]
+    split
+    · exact Or.inl ⟨hvS, hvC, haS, haC, hm, hrr, hdn⟩
     · split
-      · exact Or.inl ⟨hvS, hvC, haS, haC, hm, hrr, hdn⟩
-      · rcases hrS with hs | ⟨v, hs, _, _⟩
-        · have hc : (recC child cn (depth+1)).1 = [] := by
-            rw [hs] at hr
-            cases hx : (recC child cn (depth+1)).1 with
-            | nil => rfl
-            | cons a b => rw [hx] at hr; simp at hr
-          rw [hs]
-          simp only [h2, if_false, hc]
-          exact Or.inl ⟨by simp [hvS], by simp [hvC], haS, haC, rfl, rfl, rfl⟩
-        · rw [hs] at hr
-          rw [hs]
-          simp only [h1, if_true]
-          exact Or.inr ⟨v, by simp [hvS], rfl, by simp [hvC, ← hr]⟩
-
-
+      · split
+        · exact Or.inl ⟨hvS, hvC, haS, haC, hm, hrr, hdn⟩
+        · split
+          · exact Or.inr ⟨cn, by simp [hvS], by simp, by simp [hvC]⟩
+          · exact Or.inl ⟨hvS, hvC, haS, haC, hm, hrr, hdn⟩
+      · split
+        · exact Or.inl ⟨hvS, hvC, haS, haC, hm, hrr, hdn⟩
+        · rcases hrS with hs | ⟨v, hs, _, _⟩
+          · have hc := hc0 hs
+            rw [hs]
+            simp only [h2, h3, Bool.or_false, if_false, hc]
+            exact Or.inl ⟨by simp [hvS], by simp [hvC], haS, haC, rfl, rfl, rfl⟩
+          · rw [hs] at hr
+            rw [hs]
+            simp
+            exact Or.inr ⟨v, by simp [hvS], by simp, by simp [hvC, ← hr]⟩
 
 theorem take1_append_of_take1 {α : Type} {l X : List α} {v : α} (h : l.take 1 = [v]) : (l ++ X).take 1 = [v] := by
   cases l with
@@ -105,7 +152,7 @@ theorem take1_append_of_take1 {α : Type} {l X : List α} {v : α} (h : l.take 1
   | cons a b => simpa using h
 
 theorem checkEntries_cpl (pm : PM) (uf : Bool) (rd : Nat) (recS recC : Rec) (child : Node) (cn : Visit) (depth : Nat)
-    (known : Option Nat) (hd : 2 ≤ depth)
+    (known : Option Nat) (hd : 1 ≤ depth)
     (hrS : Deep cn (depth+1) (recS child cn (depth+1)))
     (hrC : (recC child cn (depth+1)).2 = ((depth+1 : Nat) : Int))
     (hr : (recS child cn (depth+1)).1 = (recC child cn (depth+1)).1.take 1) :
@@ -126,13 +173,13 @@ theorem checkEntries_cpl (pm : PM) (uf : Bool) (rd : Nat) (recS recC : Rec) (chi
       · exact Or.inl h
       · apply ih
         exact stepG_cpl pm uf rd recS recC child cn depth _ e hd hrS hrC hr stS stC h
-    · rw [checkEntries_stop _ _ _ _ _ _ _ _ stS (by simp [haS])]
-      obtain ⟨X, hX⟩ := checkEntries_append (ctxC pm uf rd) recC child cn depth known rfl (e :: es) idx stC
+    · rw [checkEntries_stop _ _ _ _ _ _ _ _ stS haS]
+      obtain ⟨X, hX, _⟩ := checkEntries_append (ctxC pm uf rd) recC child cn depth known rfl (e :: es) idx stC
       exact Or.inr ⟨v, hvS, haS, by rw [hX]; exact take1_append_of_take1 hvC⟩
 
-/-- one child at depth ≥ 2: the skip traversal records the first visit of the continue traversal (if any) -/
+/-- one child at depth ≥ 2 (`depth` ≥ 1): the skip traversal records the first visit of the continue traversal (if any) -/
 theorem checkChild_cpl (pm : PM) (uf : Bool) (rd : Nat) (recS recC : Rec) (k : Node) (names : Visit) (depth : Nat)
-    (known : Option Nat) (hd : 2 ≤ depth)
+    (known : Option Nat) (hd : 1 ≤ depth)
     (hrS : ∀ k n, Deep n (depth+1) (recS k n (depth+1)))
     (hrC : ∀ k n d, (recC k n d).2 = (d : Int))
     (hr : ∀ k n, (recS k n (depth+1)).1 = (recC k n (depth+1)).1.take 1) :
@@ -166,7 +213,7 @@ theorem travKids_cpl (pm : PM) (uf : Bool) (rd : Nat) (recS recC : Rec) (names :
   | nil => rfl
   | cons k r ih =>
     rw [travKids]
-    have hc := checkChild_cpl pm uf rd recS recC k names depth none hd hrS hrC hr
+    have hc := checkChild_cpl pm uf rd recS recC k names depth none (by omega) hrS hrC hr
     rcases checkChild_deep (ctxS pm uf rd) recS k names depth none rfl hd hrS with h | ⟨v, h, _⟩
     · rw [h] at hc ⊢
       simp only [List.append_nil, List.flatMap_cons]
@@ -201,7 +248,7 @@ theorem lookupElems_cpl (pm : PM) (uf : Bool) (rd : Nat) (recS recC : Rec) (node
       · simp only [hdc, if_true]; exact ih did
       · have hdc' : did.contains (unescape el) = false := by simpa using hdc
         simp only [hdc', Bool.false_eq_true, if_false]
-        have hc := checkChild_cpl pm uf rd recS recC k names depth (some idx) hd hrS hrC hr
+        have hc := checkChild_cpl pm uf rd recS recC k names depth (some idx) (by omega) hrS hrC hr
         rcases checkChild_deep (ctxS pm uf rd) recS k names depth (some idx) rfl hd hrS with h | ⟨v, h, _⟩
         · rw [h] at hc ⊢
           simp only [List.append_nil, List.flatMap_cons]
@@ -284,8 +331,8 @@ theorem travAux_cpl (pm : PM) (uf : Bool) (rd : Nat) :
 
 theorem checkEntries_noterm_cpl (pm : PM) (uf : Bool) (rd : Nat) (recS recC : Rec) (child : Node) (cn : Visit)
     (depth : Nat) (known : Option Nat)
-    (hnS : ¬ ((recS child cn (depth+1)).2 < (depth : Int) + 1 - 1))
-    (hnC : ¬ ((recC child cn (depth+1)).2 < (depth : Int) + 1 - 1)) :
+    (hnS : ¬ ((recS child cn (depth+1)).2 < (depth : Int) + 1))
+    (hnC : ¬ ((recC child cn (depth+1)).2 < (depth : Int) + 1)) :
     ∀ (es : List Entry), (∀ e ∈ es, ¬ (depth + 1 = rd + e.clauses.length)) →
       ∀ (idx : Nat) (stS stC : CState), NoTermSt (recS child cn (depth+1)).1 stS → NoTermSt (recC child cn (depth+1)).1 stC →
         stS.recursed = stC.recursed →
@@ -311,8 +358,8 @@ theorem checkEntries_noterm_cpl (pm : PM) (uf : Bool) (rd : Nat) (recS recC : Re
 theorem checkChild_noterm_cpl (pm : PM) (uf : Bool) (rd : Nat) (recS recC : Rec) (k : Node) (names : Visit)
     (depth : Nat) (known : Option Nat)
     (ht : ∀ e ∈ activeEntries pm (depth - rd), ¬ (depth + 1 = rd + e.clauses.length))
-    (hnS : ¬ ((recS k (names ++ [k.name]) (depth+1)).2 < (depth : Int) + 1 - 1))
-    (hnC : ¬ ((recC k (names ++ [k.name]) (depth+1)).2 < (depth : Int) + 1 - 1)) :
+    (hnS : ¬ ((recS k (names ++ [k.name]) (depth+1)).2 < (depth : Int) + 1))
+    (hnC : ¬ ((recC k (names ++ [k.name]) (depth+1)).2 < (depth : Int) + 1)) :
     ((checkChild (ctxS pm uf rd) recS k names depth known).1 = [] ∧
      (checkChild (ctxC pm uf rd) recC k names depth known).1 = []) ∨
     ((checkChild (ctxS pm uf rd) recS k names depth known).1 = (recS k (names ++ [k.name]) (depth+1)).1 ∧
@@ -388,8 +435,9 @@ theorem SameSess_take1 (a b : Bytes) (L : List Visit) (hp : ∀ v ∈ L, [a, b] 
 
 theorem SameSess_nil : SameSess [] [] := ⟨fun _ h => h, fun _ h => by cases h⟩
 
-/-- below one host node the two traversals reach the same sessions -/
-theorem host_sameSess (pm : PM) (uf : Bool) (hmin : pmMinClauses 3 pm = true) (hwf : pmWF pm = true)
+/-- below one host node the two traversals reach the same sessions (no hypothesis on the clause counts: for a
+    session node the skip traversal records the first visit the continue traversal records for it or below it) -/
+theorem host_sameSess (pm : PM) (uf : Bool) (hwf : pmWF pm = true)
     (hl : ClauseLaws pm) (fuel : Nat) (h : Node) (hn : Bytes) (hk : kidsNodup fuel h = true) :
     SameSess (travAux (ctxS pm uf 0) fuel h [hn] 1).1 (travAux (ctxC pm uf 0) fuel h [hn] 1).1 := by
   cases fuel with
@@ -397,30 +445,30 @@ theorem host_sameSess (pm : PM) (uf : Bool) (hmin : pmMinClauses 3 pm = true) (h
   | succ fuel =>
     obtain ⟨_, hkk⟩ := kidsNodup_succ hk
     rw [travAux, travAux]
+    have hrC := travAux_snd (ctxC pm uf 0) rfl fuel
     rw [travLevel_eq_levelKids (ctxS pm uf 0) _ h [hn] 1
-          (fun k known => (host_checkChild (ctxS pm uf 0) rfl rfl hmin fuel [hn] k known).1),
+          (fun k known => (host_checkChild (ctxS pm uf 0) rfl fuel [hn] k known).1),
         travLevel_eq_levelKids (ctxC pm uf 0) _ h [hn] 1
-          (fun k known => checkChild_snd _ _ k [hn] 1 known rfl (travAux_snd (ctxC pm uf 0) rfl fuel))]
+          (fun k known => checkChild_snd _ _ k [hn] 1 known rfl hrC)]
     show SameSess ((levelKids pm 0 h 1).flatMap _) ((levelKids pm 0 h 1).flatMap _)
     apply SameSess_flatMap
     intro p hp
     have hpk := levelKids_sub pm 0 h 1 p hp
-    have hdeep := travAux_deep (ctxS pm uf 0) rfl fuel p.1 ([hn] ++ [p.1.name]) 2 (Nat.le_refl _)
-    have hnS : ¬ ((travAux (ctxS pm uf 0) fuel p.1 ([hn] ++ [p.1.name]) (1+1)).2 < ((1 : Nat) : Int) + 1 - 1) := by
-      rcases hdeep with h | ⟨v, h, _⟩ <;> (rw [h]; simp)
-    have hnC : ¬ ((travAux (ctxC pm uf 0) fuel p.1 ([hn] ++ [p.1.name]) (1+1)).2 < ((1 : Nat) : Int) + 1 - 1) := by
-      rw [travAux_snd (ctxC pm uf 0) rfl]; simp
-    have ht : ∀ e ∈ activeEntries pm (1 - 0), ¬ (1 + 1 = 0 + e.clauses.length) := by
-      intro e he; have := minClauses_active hmin he; omega
-    rcases checkChild_noterm_cpl pm uf 0 _ _ p.1 [hn] 1 p.2 ht hnS hnC with ⟨h1, h2⟩ | ⟨h1, h2⟩
-    · rw [h1, h2]; exact SameSess_nil
-    · rw [h1, h2, travAux_cpl pm uf 0 fuel p.1 _ 2 (Nat.le_refl _)]
-      apply SameSess_take1 hn p.1.name
-      intro v hv
-      exact ((travAux_nodup_prefix (ctxC pm uf 0) rfl hwf hl fuel p.1 _ 2 (hkk p.1 hpk)).2 v hv).1
+    have hrS : ∀ k n, Deep n (1+1) (travAux (ctxS pm uf 0) fuel k n (1+1)) :=
+      fun k n => travAux_deep _ rfl fuel k n 2 (Nat.le_refl _)
+    have hr : ∀ k n, (travAux (ctxS pm uf 0) fuel k n (1+1)).1 = (travAux (ctxC pm uf 0) fuel k n (1+1)).1.take 1 :=
+      fun k n => travAux_cpl pm uf 0 fuel k n 2 (Nat.le_refl _)
+    rw [checkChild_cpl pm uf 0 _ _ p.1 [hn] 1 p.2 (Nat.le_refl _) hrS hrC hr]
+    apply SameSess_take1 hn p.1.name
+    -- every visit the continue traversal records for this session node carries the (host, session) prefix
+    have hnp := travAux_nodup_prefix (ctxC pm uf 0) rfl hwf hl fuel p.1 ([hn] ++ [p.1.name]) (1+1) (hkk p.1 hpk)
+    intro v hv
+    rcases checkChild_mem_sub (ctxC pm uf 0) (travAux (ctxC pm uf 0) fuel) p.1 [hn] 1 p.2 rfl v hv with h | h
+    · rw [h]; exact List.prefix_refl _
+    · exact (hnp.2 v h).1
 
 /-- over the whole tree the two traversals reach the same sessions -/
-theorem root_sameSess (pm : PM) (uf : Bool) (hmin : pmMinClauses 3 pm = true) (hwf : pmWF pm = true)
+theorem root_sameSess (pm : PM) (uf : Bool) (hmin : pmMinClauses 2 pm = true) (hwf : pmWF pm = true)
     (hl : ClauseLaws pm) (fuel : Nat) (node : Node) (hk : kidsNodup fuel node = true) :
     SameSess (travAux (ctxS pm uf 0) fuel node [] 0).1 (travAux (ctxC pm uf 0) fuel node [] 0).1 := by
   cases fuel with
@@ -436,15 +484,15 @@ theorem root_sameSess (pm : PM) (uf : Bool) (hmin : pmMinClauses 3 pm = true) (h
     apply SameSess_flatMap
     intro p hp
     have hpk := levelKids_sub pm 0 node 0 p hp
-    have hnS : ¬ ((travAux (ctxS pm uf 0) fuel p.1 ([] ++ [p.1.name]) (0+1)).2 < ((0 : Nat) : Int) + 1 - 1) := by
-      rw [travAux_host_snd (ctxS pm uf 0) rfl rfl hmin]; simp
-    have hnC : ¬ ((travAux (ctxC pm uf 0) fuel p.1 ([] ++ [p.1.name]) (0+1)).2 < ((0 : Nat) : Int) + 1 - 1) := by
+    have hnS : ¬ ((travAux (ctxS pm uf 0) fuel p.1 ([] ++ [p.1.name]) (0+1)).2 < ((0 : Nat) : Int) + 1) := by
+      rw [travAux_host_snd (ctxS pm uf 0) rfl]; simp
+    have hnC : ¬ ((travAux (ctxC pm uf 0) fuel p.1 ([] ++ [p.1.name]) (0+1)).2 < ((0 : Nat) : Int) + 1) := by
       rw [travAux_snd (ctxC pm uf 0) rfl]; simp
     have ht : ∀ e ∈ activeEntries pm (0 - 0), ¬ (0 + 1 = 0 + e.clauses.length) := by
       intro e he; have := minClauses_active hmin he; omega
     rcases checkChild_noterm_cpl pm uf 0 _ _ p.1 [] 0 p.2 ht hnS hnC with ⟨h1, h2⟩ | ⟨h1, h2⟩
     · rw [h1, h2]; exact SameSess_nil
     · rw [h1, h2]
-      exact host_sameSess pm uf hmin hwf hl fuel p.1 p.1.name (hkk p.1 hpk)
+      exact host_sameSess pm uf hwf hl fuel p.1 p.1.name (hkk p.1 hpk)
 
 end Muscle.Reflector
